@@ -1260,7 +1260,7 @@ func checkWriteToEndsAtEOF(c *Ctx, rule string) {
 	}
 	n := 0
 	bad := ""
-	for _, rl := range returnLeaves(fn, 1) {
+	for _, rl := range returnLeavesDeep(fn, 1) {
 		if !isNilConst(rl.v) {
 			continue
 		}
